@@ -22,4 +22,9 @@ try:
     PARTS += mprerr_parts.parts()
 except ImportError:
     pass
+try:
+    from . import mph_parts
+    PARTS += mph_parts.parts()
+except ImportError:
+    pass
 _compose.assemble(globals(), PARTS, RULE, EXPLANATION, ASSUMPTIONS)
